@@ -283,6 +283,10 @@ class Inliner:
         for pname in order:
             val = bind[pname]
             simple = isinstance(val, (ast.Name, ast.Constant)) and pname not in rebound
+            if not simple and pname not in rebound and target.kind == "sync" and _is_field_chain(val):
+                # ``self.x`` handed to a synchronous helper: nothing can rebind the field while the
+                # helper runs, so reading it at each use is the same as reading it once
+                simple = True
             if isinstance(val, ast.Name) and val.id in rebound - {pname} and val.id in t_locals:
                 simple = False
             if simple:
@@ -367,6 +371,12 @@ class Inliner:
 
 
 # ---------------------------------------------------------------------- helpers
+def _is_field_chain(e: ast.AST) -> bool:
+    while isinstance(e, ast.Attribute):
+        e = e.value
+    return isinstance(e, ast.Name)
+
+
 def _own_returns(body: List[ast.stmt]):
     stack = list(body)
     while stack:
